@@ -1697,6 +1697,10 @@ class Color(object):
     def opacity(self, opacity):
         if self.value is None:
             raise ValueError
+        if opacity > 1:
+            opacity = 1.0
+        if opacity < 0:
+            opacity = 0.0
         a = int(round(opacity * 255.0))
         a = Color.crimp(a)
         self.alpha = a
